@@ -11,9 +11,12 @@ print("coq build:", "ok" if ok else "FAILED", ctx.cov.get("coq_make_s"), "s")
 if not ok:
     print(out)
     sys.exit(1)
-vh, err = ctx.build_harness()
-print("harness:", "ok" if vh else "FAILED\n" + str(err))
 man = json.load(open(os.path.join(vlib.VERIF, "MANIFEST.json")))
+vh = True
+for c in man["checks"]:
+    b, err = ctx.build_harness(pid=c["property_id"])
+    print("harness", c["property_id"], "ok" if b else "FAILED\n" + str(err))
+    vh = vh and bool(b)
 files = set()
 import importlib
 for c in man["checks"]:
